@@ -254,7 +254,11 @@ pub fn run_case(cx: &mut Ctx) {
         let pmfs: Vec<MetricFamily> = mfs.iter().map(build).collect();
         let mut full_text = Vec::new();
         let mut full_pb = Vec::new();
-        if TextEncoder::new().encode(&pmfs, &mut full_text).is_ok() && ProtobufEncoder::new().encode(&pmfs, &mut full_pb).is_ok() {
+        let full = catch(|| TextEncoder::new().encode(&pmfs, &mut full_text).is_ok() && ProtobufEncoder::new().encode(&pmfs, &mut full_pb).is_ok());
+        if let Err(p) = &full {
+            report(cx, "TextEncoder::encode", families_json(&mfs).to_string(), Err(p.clone()), false);
+        }
+        if full == Ok(true) {
             let step_cap = if cx.thorough { usize::MAX } else { 1500 };
             for (api, total) in [("TextEncoder::encode", full_text.len()), ("ProtobufEncoder::encode", full_pb.len())] {
                 let limit = total.min(step_cap);
